@@ -2,9 +2,9 @@
     Model: Step.v / Run.v ([run] = SolveEquation keeping the series as they stand on failure),
     Validate.v ([validate] = EquationParser.ValidateInputs).  Orig.v is the code before the
     proposed fixes D02a, D02b/D11, D02c, D11b. *)
-From Coq Require Import List String Bool Arith Lia PrimFloat Floats.
+From Coq Require Import List String Bool Arith Lia PrimFloat Floats Reals Lra.
 From SFC.Base Require Import Res Str Sorting Expr.
-From SFC.Solve Require Import Types Maps Init Step Run Orig Validate InitProofs StepProofs RunProofs FailProofs Examples.
+From SFC.Solve Require Import Types Maps Init Step Run Orig Validate InitProofs StepProofs RunProofs FailProofs Truncate RealInstance Examples.
 Import ListNotations.
 Local Open Scope string_scope.
 
@@ -21,6 +21,11 @@ Proof.
   destruct (loop_bound p (S (p_maxiter p)) ini 1%float false 0 [] ltac:(lia) ltac:(lia)) as [H1 [_ H3]]. auto.
 Qed.
 Print Assumptions C11_loop_fuel.
+
+(** no loop of the model ever runs out of fuel: every outcome of [run] is a Python outcome *)
+Theorem C11_no_out_of_fuel : forall p, rr_err (run p) <> Some OutOfFuel.
+Proof. exact run_not_fuel. Qed.
+Print Assumptions C11_no_out_of_fuel.
 
 (** error class of a period's iteration: an unbound name propagates at once (NameError);
     the cap is hit after exactly MaxIterations+1 sweeps with ConvergenceError, or ValueError
@@ -56,6 +61,16 @@ Theorem C11_intact : forall p e, wf p -> rr_err (run p) = Some e ->
 Proof. exact run_fail_wf. Qed.
 Print Assumptions C11_intact.
 
+(** ... and rows 0..j-1 of every series are exactly what a run with MaxTime = j-1 returns
+    (which succeeds); [trunc j] keeps the first j values of every series, i.e. it only cuts the
+    exogenous ones, the others have length j already *)
+Theorem C11_intact_prefix : forall p e, wf p -> rr_err (run p) = Some e -> rr_ts (run p) <> [] ->
+  exists j, 1 <= j <= p_maxtime p /\
+    solve (set_maxtime p (j - 1)) = Ok (trunc j (rr_ts (run p))) /\
+    (forall x, In x (nonexo_names p) -> List.length (series x (rr_ts (run p))) = j).
+Proof. exact intact_maxtime. Qed.
+Print Assumptions C11_intact_prefix.
+
 (** reserved or shadowing names: NameError before anything is evaluated *)
 Theorem C11_names : forall alleqs bad_vars bad_tokens p,
   (exists x toks, In (x, toks) alleqs /\ (In x bad_vars \/ exists t, In t toks /\ In t bad_tokens)) ->
@@ -67,7 +82,45 @@ Proof.
 Qed.
 Print Assumptions C11_names.
 
+(** exact-arithmetic instance (over R) of the sweep loop ([loopR]: same stop test, damping after
+    10 sweeps, cap test): a sup-norm contraction with factor <= 0.8 in at most 12 variables,
+    constants bounded by 1e3 and a starting vector bounded by 5e3 (the previous period's solution
+    of such a system), tolerance >= 1e-8, is solved within the default cap of 400 sweeps.
+    The float/real gap is NOT closed (the oracle of harness/c11.py checks thousands of random
+    float instances). *)
+Theorem C11_contraction : forall (n : nat) (F : vec -> vec) (q tol : R) (u0 : vec),
+  (n <= 12)%nat -> (0 <= q <= 4 / 5)%R -> lipschitz n F q -> (1 / 100000000 <= tol)%R ->
+  (forall i, (i < n)%nat -> (Rabs (F (fun _ => 0%R) i) <= 1000)%R) ->
+  (forall i, (i < n)%nat -> (Rabs (u0 i) <= 5000)%R) ->
+  exists v m, run_loopR n F tol 400 u0 = OkR v m /\ (m <= 400)%nat.
+Proof.
+  intros n F q tol u0 Hn Hq Hlip Htol Hc Hu.
+  apply (contraction_converges n F q tol 10000 u0); auto; [lra|].
+  now apply (first_residual_bound n F q u0).
+Qed.
+Print Assumptions C11_contraction.
+
 (* ---- satisfiable hypotheses / non-vacuity *)
+(** x = 0.5*y + 100 ; y = 0.3*x - 50 as a map on vectors *)
+Definition exF : vec -> vec := fun u i => match i with O => (0.5 * u 1%nat + 100)%R | _ => (0.3 * u 0%nat - 50)%R end.
+
+Example C11_contraction_example :
+  exists v m, run_loopR 2 exF (1 / 1000000) 400 (fun _ => 0%R) = OkR v m /\ (m <= 400)%nat.
+Proof.
+  apply (C11_contraction 2 exF 0.5); try lia; try lra.
+  - intros a b D HD i Hi. unfold exF. destruct i as [|i].
+    + replace (0.5 * a 1%nat + 100 - (0.5 * b 1%nat + 100))%R with (0.5 * (a 1%nat - b 1%nat))%R by ring.
+      rewrite Rabs_mult, (Rabs_right 0.5) by lra. specialize (HD 1%nat ltac:(lia)). lra.
+    + replace (0.3 * a 0%nat - 50 - (0.3 * b 0%nat - 50))%R with (0.3 * (a 0%nat - b 0%nat))%R by ring.
+      rewrite Rabs_mult, (Rabs_right 0.3) by lra. specialize (HD 0%nat ltac:(lia)).
+      assert (0 <= Rabs (a 0%nat - b 0%nat))%R by apply Rabs_pos. lra.
+  - intros i Hi. unfold exF. destruct i; rewrite Rmult_0_r.
+    + rewrite Rplus_0_l, Rabs_right; lra.
+    + unfold Rminus. rewrite Rplus_0_l, Rabs_Ropp, Rabs_right; lra.
+  - intros i Hi. rewrite Rabs_R0. lra.
+Qed.
+Print Assumptions C11_contraction_example.
+
 Example C11_example_wf : wf ex_deco_pole /\ wf ex1.
 Proof.
   split; constructor; simpl.
@@ -87,6 +140,11 @@ Example C11_example_fail :
   rr_sweeps (run ex_deco_pole) = [2; 2].
 Proof. vm_compute. repeat split; reflexivity. Qed.
 Print Assumptions C11_example_fail.
+
+Example C11_example_prefix :
+  solve (set_maxtime ex_deco_pole 1) = Ok (trunc 2 (rr_ts (run ex_deco_pole))).
+Proof. vm_compute. reflexivity. Qed.
+Print Assumptions C11_example_prefix.
 
 Example C11_example_cap :
   rr_err (run (mkP (p_endo ex_overflow) [] [] [] [] 2 tol6 3)) = Some ConvergenceError /\
